@@ -683,6 +683,9 @@ class Lowerer:
     def e_ConditionalOperator(self, n):
         if self._is_assert(n): return self._assert(n)
         c, a, b = n['inner']
+        if n.get('valueCategory') == 'lvalue' and self.is_record_type(n['type']):
+            # an lvalue conditional: its address is taken below (reference binding); `&(c ? a : b)` is not C
+            return '(*(%s ? %s : %s))' % (self.expr(c), self.addr(self.expr(a)), self.addr(self.expr(b)))
         return '(%s ? %s : %s)' % (self.expr(c), self.expr(a), self.expr(b))
 
     # casts
